@@ -15,7 +15,9 @@ def run(chk, replay=None):
     chk.coverage["rule"] = ("every argument shape (11 scalars incl. NaN bit patterns and extremes, repr(C) struct, &T, &mut T, &[u8|u64|zst|3-byte struct], &mut [u8|u64], &str incl. "
                             "empty/multi-byte/NUL, Option<&T>, Option<u64>, Option<struct>, Result, impl Into<T>, OpaqueCallback, CIterator, raw pointers) and every return shape "
                             "(scalars, struct, &T, &str, &[T], &mut [T], Option, Option<&T>, Result, int results) in its own trait and mixed in multi-argument methods: the implementor "
-                            "digests what it saw (content, length, address) and writes back through &mut; the caller compares with what it sent and with a direct call. "
+                            "digests what it saw (content, length, address) and writes back through &mut; the caller compares with what it sent and with a direct call. Shapes whose "
+                            "signature type is itself a cglue type (callback, iterator) are additionally checked against a model inside the call: the count feed_into reports vs the items "
+                            "taken from the source, and - for a non-fused source drained in rounds - the Option sequence the implementor saw vs the one the source yielded. "
                             "evaluations = calls; distinct = histories")
     chk.floor("calls compared", calls, 20000)
     chk.floor("miri calls", int(chk.parts.get("corpus-miri", {}).get("calls", 0)), 200)
